@@ -130,7 +130,7 @@ type PkgContracts struct {
 	NLines   int
 }
 
-var kwRe = regexp.MustCompile(`^(arith|monitor|field|ghost|pure|opaque|invariant|func|extern|trusted|lemma|env|requires|ensures|modifies|loop|axiom|property|locked|constructor|noeffect|assume|option|note)\b`)
+var kwRe = regexp.MustCompile(`^(arith|monitor|field|ghost|pure|opaque|invariant|func|extern|trusted|lemma|env|does|requires|ensures|modifies|loop|axiom|property|locked|constructor|noeffect|assume|option|note)\b`)
 
 var nameTagRe = regexp.MustCompile(`^\[([A-Za-z0-9_.\-]+)\]\s*`)
 
@@ -382,6 +382,15 @@ func loadContractsFile(pkgPath, dir, file string) (*PkgContracts, error) {
 				cur.Loops[k] = &LoopSpec{}
 			}
 			cur.Loops[k].Invs = append(cur.Loops[k].Invs, cl)
+		case "does":
+			if cur == nil || !cur.Env {
+				return nil, fail(rc.line, "does outside env")
+			}
+			st, err := ParseGhostStmts(rest)
+			if err != nil {
+				return nil, fail(rc.line, "%v", err)
+			}
+			cur.Ghost = append(cur.Ghost, GhostBlock{At: "env", Stmts: st, Src: rest, Line: rc.line})
 		case "locked":
 			if cur == nil {
 				return nil, fail(rc.line, "locked outside func")
